@@ -156,4 +156,29 @@ theorem C08_contains_atoms_partial (x : Atom) (b : Expr Atom) (h : containsTop (
     · exact Or.inr ⟨m, hm, hmy⟩
   | node o ts => simp [hb] at h
 
+/-- **C08 (strings as parsed objects)**: `is_equivalent` and `contains` on two strings answer what they
+    answer on the expressions the strings parse to — for every table and every two texts that parse. -/
+theorem C08_strings (c : Cls) (T : Table) (s1 s2 : Str) (a b : Expr Atom)
+    (h1 : parseFull c T false false false s1 = .ok a) (h2 : parseFull c T false false false s2 = .ok b) :
+    equivText c T s1 s2 = some (equivE a b) ∧ containsText c T s1 s2 = some (containsTop a b) := by
+  simp [equivText, containsText, h1, h2]
+
+/-- … so the answer does not depend on how an expression is written: two texts that parse to the same
+    expression are interchangeable on either side (with `C02_text` / `C04_in_context`: any letter case,
+    spacing and any stored name of each license). -/
+theorem C08_strings_spelling (c : Cls) (T : Table) (s1 s1' s2 : Str)
+    (h : parseFull c T false false false s1 = parseFull c T false false false s1') :
+    equivText c T s1 s2 = equivText c T s1' s2 ∧ equivText c T s2 s1 = equivText c T s2 s1' ∧
+    containsText c T s1 s2 = containsText c T s1' s2 ∧ containsText c T s2 s1 = containsText c T s2 s1' := by
+  simp [equivText, containsText, h]
+
+/-- reflexive and symmetric on strings too; an empty or blank string is equivalent to itself only -/
+theorem C08_strings_refl (c : Cls) (T : Table) (s : Str) (a : Expr Atom)
+    (h : parseFull c T false false false s = .ok a) : equivText c T s s = some true := by
+  simp [equivText, h, C08_refl]
+
+theorem C08_strings_symm (c : Cls) (T : Table) (s1 s2 : Str) : equivText c T s1 s2 = equivText c T s2 s1 := by
+  unfold equivText
+  cases h1 : parseFull c T false false false s1 <;> cases h2 : parseFull c T false false false s2 <;> simp [C08_symm]
+
 end LE
